@@ -51,6 +51,9 @@ pub struct BuildRun {
     /// number of sink events when the last public call returned (events after
     /// that come from dropping the writer stack)
     pub ev_at_return: u64,
+    /// durable length when the last public call returned (what the file held
+    /// before the writer stack was dropped)
+    pub durable_at_return: usize,
     pub finish_reached: bool,
 }
 
@@ -162,6 +165,7 @@ impl BuildWorld {
             finish_reached,
         } = self;
         let ev_at_return = sink.borrow().ev_idx;
+        let durable_at_return = sink.borrow().durable.len();
         sink.borrow_mut().cur_op = u32::MAX;
         let results = task.results.clone();
         let pulled = task.pulled.clone();
@@ -182,6 +186,7 @@ impl BuildWorld {
             sink,
             tap,
             ev_at_return,
+            durable_at_return,
             finish_reached,
         }
     }
